@@ -42,7 +42,7 @@ CLAIMS = {
          "TLC trace validation against Pdb.tla with boundary-length concretization + structural dump invariants in TLA+"),
  "C09": ("Index.tla (generations, pages, partial keys, value slots, reindex batches, drops, restarts) model-checked with Findable / OneSlotPerKey and a necessity config re-creating a fixed defect; recorded histories over 80 keys sharing one index chunk (groups agreeing on all index-visible bits) with reindex batches, restarts and crashes validated by TLC against Pdb.tla, plus structural dumps",
          "TLC model checking of Index.tla + TLC trace validation with colliding key universes"),
- "C14": ("structural invariants written in TLA+ (TracePdb.tla DumpOK) and evaluated by TLC on raw structure dumps of the implementation (free list, chains, every value indexed, one value per live key of the model, btree order / depth / reachability) at every drained point of recorded histories incl. recoveries; steady insert/remove rounds must stop growing the fill marks",
+ "C14": ("structural invariants written in TLA+ (TracePdb.tla DumpOK) and evaluated by TLC on raw structure dumps of the implementation (free list, chains, every value indexed, one value per live key of the model, btree order / depth / reachability) at every drained point of recorded histories incl. recoveries; steady insert/remove rounds must stop growing the fill marks; tree columns: MultiTree.tla with a Crash action, replayed with crash images, ref-count table and slot census compared with the model (known finding F19: claimed slots leak across a crash)",
          "TLA+ structural invariants evaluated by TLC on implementation dumps inside trace validation"),
  "C19": ("PageSearch.tla transcribes the vectorised and the scalar page search at width 8 / block 4; TLC checks the four clauses of C19 for every page over a small entry domain x keys x start positions (2.1 M cases) and a sample of cases with the specification's answers is embedded into real 64-slot pages for six index sizes and replayed through a hook into both private functions",
          "TLC exhaustive check of PageSearch.tla + case replay into the real search functions"),
